@@ -401,17 +401,15 @@ fn host_expect(op: &str, args: &[Nm]) -> Option<String> {
         },
         "clamp" => {
             let (x, lo, hi) = (&hs[0].0, &hs[1].0, &hs[2].0);
-            match (cmp2(x, lo), cmp2(x, hi)) {
-                (Some(c1), Some(c2)) => {
-                    if c1 < 0 {
-                        args[1].sx()
-                    } else if c2 > 0 {
-                        args[2].sx()
-                    } else {
-                        args[0].sx()
-                    }
-                }
-                _ => "nil".into(),
+            // `hi` is only consulted when x >= lo (the documented range has lo <= hi)
+            match cmp2(x, lo) {
+                None => "nil".into(),
+                Some(c1) if c1 < 0 => args[1].sx(),
+                Some(_) => match cmp2(x, hi) {
+                    None => "nil".into(),
+                    Some(c2) if c2 > 0 => args[2].sx(),
+                    Some(_) => args[0].sx(),
+                },
             }
         }
         "neg" | "abs" => {
@@ -1319,8 +1317,6 @@ fn main() {
     ev.set_extra("impl_eval_wall_s", json!(t0.elapsed().as_secs_f64()));
 
     // --- compare
-    let mut mixed_fails: Vec<String> = vec![];
-    let mut mixed_first = None;
     for (i, c) in cases.iter().enumerate() {
         let got = &impl_out[i];
         let key = (c.ex.key(), c.opaque, c.typed);
@@ -1383,26 +1379,18 @@ fn main() {
             if h != got {
                 let mixed_minmax = (op == "min" || op == "max" || op == "clamp") && h == "nil" && c.ex.depth() == 1
                     && lits.iter().all(|n| **n != Nm::Nil);
-                if mixed_minmax {
-                    if mixed_fails.len() < 4 {
-                        mixed_fails.push(format!("`{}` -> {got}", exprs[i]));
-                    }
-                    if mixed_first.is_none() {
-                        mixed_first = Some(replay.clone());
-                    }
-                    ev.hit("finding:mixed-radicals-minmax");
+                let sig = if mixed_minmax {
+                    "kind=mixed-radicals-minmax-not-nil".to_string()
+                } else if !answer_is_canonical(got) {
+                    format!("op={op} kind=non-canonical-result")
+                } else if same_value(h, got) == Some(true) {
+                    format!("op={op} kind=wrong-kind")
                 } else {
-                    let sig = if !answer_is_canonical(got) {
-                        format!("op={op} kind=non-canonical-result")
-                    } else if same_value(h, got) == Some(true) {
-                        format!("op={op} kind=wrong-kind")
-                    } else {
-                        format!("op={op} kind=wrong-value")
-                    };
-                    ev.violation(&sig,
-                        &format!("`{}` = {got}, exact host arithmetic gives {h}", exprs[i]), replay.clone(), true);
-                    continue;
-                }
+                    format!("op={op} kind=wrong-value")
+                };
+                ev.violation(&sig,
+                    &format!("`{}` = {got}, exact host arithmetic gives {h}", exprs[i]), replay.clone(), true);
+                continue;
             }
         }
         // correspondence: model <-> implementation
@@ -1414,12 +1402,6 @@ fn main() {
                 json!({"broken": format!("correspondence model<->impl on {op}"), "case": replay}), found);
         }
     }
-    if !mixed_fails.is_empty() {
-        ev.violation("kind=mixed-radicals-minmax-not-nil",
-            &format!("min/max/clamp over incompatible radicals return an operand instead of nil: {}", mixed_fails.join("; ")),
-            json!({"first": mixed_first, "examples": mixed_fails}), true);
-    }
-
     // --- laws on the implementation's own results
     for law in &laws {
         ev.hit(&format!("law:{}", law.name));
